@@ -35,7 +35,11 @@ def run(ctx, rep, tier):
     call = [c for c in calls_in(cv, nested=False) if isinstance(c.func, ast.Attribute) and c.func.attr == "_merge"]
     rep.check(len(call) == 1 and len(call[0].args) >= 2 and ast.unparse(call[0].args[1]) == HANDLER, "C08.a", CV, "merge is given the no-match handler of the enclosing scope", "merge handler argument changed")
     skip = find_ifs(mg, r"^converted_states\[processing\] in new_dfa\.accepting_states$")
-    rep.check(len(skip) == 1 and isinstance(skip[0].body[-1], ast.Continue), "C08.a", MG, "finish states get no else (the case ends there)", "finish-state handling in the merge changed")
+    inner = skip[0].body[0] if len(skip) == 1 and len(skip[0].body) == 1 and isinstance(skip[0].body[0], ast.If) else None
+    rep.check(inner is not None and isinstance(inner.body[-1], ast.Continue) and not inner.orelse and
+              ast.unparse(inner.test) == "DFTransition.Else in actual_else or not any((DFTransition.Else in x.on_values for x in converted_states[processing].transitions))",
+              "C08.a", MG, "finish states get no else - except the symbols a pattern continuing on Else explicitly excludes (the case ends there; shared with C17.i)",
+              "finish-state handling in the merge changed")
 
     rep.rule("C08.b", "every transition to the no-match handler is retargeted to the else clause, unconditionally, carrying the else clause's actions")
     he = [n for n in walk_no_nested(cv) if isinstance(n, ast.Assign) and ast.unparse(n.targets[0]) == "has_else"]
@@ -46,12 +50,16 @@ def run(ctx, rep, tier):
     good = any(re.fullmatch(r"next\(\((\w+) for (\w+), \1 in self\.case_match_actions\.items\(\) if None in \2\)\)", f) for f in forms)
     rep.check(good and "[]" in forms, "C08.b", CV, "else actions = actions of the clause whose key contains the else marker (or none)",
               f"else actions are looked up as {forms}: an `else` combined with other patterns in one clause loses its actions")
-    loops = [n for n in ast.walk(cv) if isinstance(n, ast.For) and ast.unparse(n.iter) == f"decider_dfa.transitions_pointing_to({HANDLER})"]
+    loops = [n for n in ast.walk(cv) if isinstance(n, ast.For) and ast.unparse(n.iter) == f"decider_dfa.transitions_pointing_to({HANDLER}, include_states=True)"]
     rep.check(len(loops) == 2, "C08.b", CV, "two retargeting loops (else with body / else without body)", f"{len(loops)} retargeting loops over the decider's no-match transitions")
     for lp in loops:
-        first = lp.body[0]
+        # the only skip allowed: a transition leaving an accepting state of the decider (a clause is complete there: the case ends, it is not a mismatch)
+        svar, tvar = (ast.unparse(e) for e in lp.target.elts) if isinstance(lp.target, ast.Tuple) and len(lp.target.elts) == 2 else ("?", "?")
+        g0 = lp.body[0]
+        okg = isinstance(g0, ast.If) and ast.unparse(g0.test) == f"{svar} in decider_dfa.accepting_states" and len(g0.body) == 1 and isinstance(g0.body[0], ast.Continue) and not g0.orelse
+        rep.check(okg, "C08.b", CV, "retargeting skips exactly the transitions leaving accepting states of the decider", "the skip condition of the else retargeting changed")
+        first = lp.body[1] if okg and len(lp.body) > 1 else lp.body[0]
         ch = parse_chain(first.value) if isinstance(first, ast.Expr) and isinstance(first.value, ast.Call) else None
-        tvar = ast.unparse(lp.target)
         if ch is None or ch.root != tvar or ch.to is None:
             rep.bad("C08.b", CV, "retarget is the loop's first statement", "the else retargeting is no longer the unconditional first statement of its loop")
             continue
@@ -65,7 +73,7 @@ def run(ctx, rep, tier):
             pre = [p for a, p in ch.attach if "*else_actions" in " ".join(a)]
             rep.check(ch.to == "new_state" and has_actions and pre == ["True"] and ch.truthy("fallthrough") and ch.truthy("handles_else"), "C08.b", CV,
                       "else without body: -> fresh accepting state, else actions first, fallthrough", f"body-less else retarget is {ch}")
-        esc = [n for n in ast.walk(lp) if isinstance(n, (ast.Continue, ast.Break, ast.If))]
+        esc = [n for n in ast.walk(lp) if isinstance(n, (ast.Continue, ast.Break, ast.If)) and not (okg and (n is g0 or n is g0.body[0]))]
         rep.check(not esc, "C08.b", CV, "retargeting loop has no condition / skip", "the else retargeting became conditional")
 
     rep.rule("C08.c", "greedy: maximum priority wins, ties refused; priorities recorded per clause for each of its patterns")
